@@ -370,7 +370,7 @@ def check_history(case):
             out['nsteps'] = i + 1
             s = c.seconds
             b = c.beats
-            if prev is not None and prev['plain']:
+            if prev is not None:
                 # since the last step nothing but time: slope = tempo
                 eb = prev['b'] + (fr(s) - fr(prev['s'])) * ref.T
                 if not close(b, eb, max(ref.bscale(s), abs(eb))):
@@ -422,7 +422,7 @@ def check_history(case):
             check_meter(i, k)
             if out['bad']:
                 return
-            prev = {'s': s2, 'b': fr(b2), 'plain': k != 'beats'}
+            prev = {'s': s2, 'b': fr(b2)}
             yield delta
     r = S.Routine(body)
     r.play(clk, 0)          # quant 0: now
@@ -709,10 +709,17 @@ def check_playq(case):
                 meter['origin'] = clk.beats
                 meter['bpb'] = st[1]
                 clk.beats_per_bar = st[1]
+            if k == 'beats' and not wait:
+                # a routine that moved the clock's beats is rescheduled from
+                # its old beat (documented; C05's subject): re-synchronise
+                # before measuring anything that depends on its wake-up
+                wait = 0.5
             if wait:
                 yield wait
             ref = clk.beats
             qq = meter['bpb'] if q == 'bar' else q
+            if qq and not (-qq < ph < qq):
+                ph = 0           # the statement covers phases in (-q, q) only
             if qq is None:
                 quant, eq, eph = None, 1, 0        # default Quant()
             elif form == 'Quant':
